@@ -10,7 +10,7 @@ import time
 from mc import statex
 from mc import c13_world as W
 
-BUDGET = {'quick': 60, 'thorough': 570}
+BUDGET = {'quick': 240, 'thorough': 1500}
 
 # events whose last element is the "notification delivered at once" flag;
 # leaving it queued (0) is one deviation (DESIGN 2.2)
